@@ -578,7 +578,15 @@ def rule_fromstr(ctx):
     if len(ms) != 1:
         return ctx.missing(R, "from_str/match")
     m = ms[0]
-    scr = render(m["scrut"])
+    import sgrep
+    le_ = sgrep.lets(fn["body"])
+    sc = strip(m["scrut"])
+    for _ in range(4):
+        while sc["k"] == "Index":
+            sc = strip(sc["base"])
+        if sc["k"] == "Path" and sc["path"] in le_:
+            sc = strip(le_[sc["path"]])
+    scr = render(sc)
     norm = None
     if "to_uppercase()" in scr or "to_ascii_uppercase()" in scr:
         norm = str.upper
@@ -630,7 +638,8 @@ def rule_fromstr(ctx):
         text = facts.src(MAIN)
         mm = re.search(r"#\[clap\(([^\]]*)\)\]\s*curve\s*:", text)
         ctx.check(R, "Cli/curve-default", bool(mm) and re.search(r"default_value\s*=\s*config::DEFAULT_CURVE", mm.group(1)) is not None, "attribute: %s" % (mm.group(1) if mm else "?"))
-    mainfn = find_fn(MAIN, "main")
+    import c03
+    mainfn = c03.canon_main(ctx, R)
     if mainfn is not None:
         c = list(calls(mainfn["body"], "AnalysisRunner::new"))
         ctx.check(R, "main/curve-option-reaches-runner", len(c) == 1 and render(strip(c[0]["args"][0])) == "options.curve", "AnalysisRunner::new(%s)" % (render(c[0]["args"]) if c else "?"))
